@@ -365,7 +365,7 @@ pub fn run(rep: &mut Report, thorough: bool, random_cases: u64, replay: Option<&
             rep.sample(s);
         }
     }
-    rep.require("merge_steps_checked", 100);
+    rep.require("merge_steps_checked", if cfg!(miri) { 5 } else { 100 });
 }
 
 fn parse_line(t: &str) -> Option<Line> {
